@@ -974,7 +974,7 @@ example : (Space.prod [.prod [.tensor ⟨[2], .float64, defaultW .np⟩] (defaul
 non-composite plain sets `A`, `B` (`EmptySet`, `UniversalSet`, `Strings`, the number sets,
 interval products of any dimension ≥ 1 with finite bounds, `FiniteSet`s of Python scalars),
 if `A.contains_set(B)` (exact inclusion: `atol = 0` / no `atol`) returns `True`, then every
-value `v` (scalars of every kind incl. NumPy complex scalars, sequences nested to any depth)
+value `v` (scalars of every kind, sequences nested to any depth)
 with `v in B` also has `v in A`.  In particular the tower `Integers ⊂ RealNumbers ⊂
 ComplexNumbers` of `contains_set` agrees with the `numbers` ABC tests of `__contains__`.
 Executed definitions: `PLeaf.containsSet` (stream `cset/*`) and `PLeaf.mem` (stream `mem/*`).
@@ -1164,17 +1164,40 @@ theorem C20.composite_mem_order_irrelevant (a b : List PSet) (h : ∀ s, s ∈ a
   · rw [Bool.eq_iff_iff, h1.1, h2.1]; simp [h]
   · rw [Bool.eq_iff_iff, h1.2.1, h2.2.1]; simp [h]
 
-/-- Counterexample (finding C20-F13) on the model of the current code: the NumPy complex scalar
-`np.complex64(0.5+1j)` IS reported as a member of `IntervalProd(0, 1)` (its imaginary part is
-discarded by `np.array(other, dtype=float)`), the equal Python `complex` `0.5+1j` is not; the
-same inside a sequence.  So membership in an interval product does not respect `==` of values
-and admits non-real numbers. -/
-theorem C20.interval_mem_numpy_complex_fails :
-    (PLeaf.interval [0] [1]).mem (.sc (.cplx (1/2) 1 true)) = true ∧
-    (PLeaf.interval [0] [1]).mem (.sc (.cplx (1/2) 1 false)) = false ∧
+/-- Sensitivity (the defect C20-F13, repaired in /repo 1a77968), on the model of the OLD
+`__contains__` (`intervalMemOld`, not executed): the NumPy complex scalar
+`np.complex64(0.5+1j)` WAS reported as a member of `IntervalProd(0, 1)` (its imaginary part was
+discarded by `np.array(other, dtype=float)`) while the equal Python `complex` was not, also
+inside a sequence; the current model rejects both. -/
+theorem C20.old_interval_mem_numpy_complex_fails :
+    intervalMemOld [0] [1] (.sc (.cplx (1/2) 1 true)) = true ∧
+    intervalMemOld [0] [1] (.sc (.cplx (1/2) 1 false)) = false ∧
     (Scalar.cplx (1/2) 1 true).pyEq (.cplx (1/2) 1 false) = true ∧
-    (PLeaf.interval [0, 0] [1, 1]).mem (.tuple [.sc (.real (1/2)), .sc (.cplx (1/2) 2 true)]) = true := by
+    intervalMemOld [0, 0] [1, 1] (.tuple [.sc (.real (1/2)), .sc (.cplx (1/2) 2 true)]) = true ∧
+    (PLeaf.interval [0] [1]).mem (.sc (.cplx (1/2) 1 true)) = false ∧
+    (PLeaf.interval [0, 0] [1, 1]).mem (.tuple [.sc (.real (1/2)), .sc (.cplx (1/2) 2 true)]) = false := by
   decide +kernel
+
+/-- Since the repair of C20-F13 every member of an interval product is a real number or a
+sequence of real numbers (`bool`, `int`, `float` and their NumPy counterparts) of the right
+length — no complex value, `None`, text or nested sequence is ever a member. -/
+theorem C20.interval_mem_real (lo hi : List Rat) (v : Val)
+    (h : (PLeaf.interval lo hi).mem v = true) :
+    (∃ s x, v = .sc s ∧ s.real? = some x ∧ lo.length = 1) ∨
+    (∃ vs p, v = .tuple vs ∧ vs.mapM Val.coord? = some p ∧ p.length = lo.length) := by
+  cases v with
+  | sc s =>
+    left
+    simp only [PLeaf.mem, intervalMem, Scalar.floatConv?] at h
+    cases hs : s.real? with
+    | none => simp [hs] at h
+    | some x => simp only [hs, Bool.and_eq_true, decide_eq_true_eq] at h; exact ⟨s, x, rfl, hs, h.1⟩
+  | tuple vs =>
+    right
+    simp only [PLeaf.mem, intervalMem] at h
+    cases hs : vs.mapM Val.coord? with
+    | none => simp [hs] at h
+    | some p => simp only [hs, Bool.and_eq_true, decide_eq_true_eq] at h; exact ⟨vs, p, rfl, hs, h.1⟩
 
 /-- Counterexamples on the model of the current code: (finding C20-F15) `IntervalProd(0,
 1).contains_set(IntervalProd([], []))` is `True` although `()` is in the second and not in the
